@@ -111,3 +111,18 @@ int wrap_bad(THING* t, int n)
   yr_free(p);
   return ERROR_SUCCESS;
 }
+
+/* R16.7: guard after use */
+int guard_before_use(THING* t)
+{
+  if (t == NULL)
+    return ERROR_INSUFFICIENT_MEMORY;
+  return t->xrefs;
+}
+int guard_after_use(THING* t)
+{
+  int n = t->xrefs;
+  if (t == NULL)
+    return ERROR_INSUFFICIENT_MEMORY;
+  return n;
+}
